@@ -407,4 +407,18 @@ def run (f : Frame) (m : Maps) (clk : UInt64) : M (Nat × Frame) := do
         | none => pure (XDP_PASS, f)
         | some cfg => reply f p msgType a pool cfg
 
+/-! ### named pieces of the reply (used by the closed forms and by the executable specification) -/
+
+/-- the destination MAC `setup_reply_l2_headers` chooses -/
+def l2Dest (f : Frame) (p : Pkt) : List UInt8 :=
+  let flags := UInt16.ofNat (leNat (bytesAt f (p.dhcpOff + 10) 2))
+  let ciaddr := UInt32.ofNat (leNat (bytesAt f (p.dhcpOff + 12) 4))
+  if ((ntohs flags &&& 0x8000) != 0 || ciaddr == 0) = true then List.replicate 6 0xFF
+  else bytesAt f (p.dhcpOff + 28) 6
+
+/-- `config->server_ip != 0 ? config->server_ip : pool->gateway` -/
+def serverIpOf (cfg pool : Bytes) : UInt32 := if rd32 cfg 8 != 0 then rd32 cfg 8 else rd32 pool 8
+/-- OFFER for DISCOVER, ACK otherwise (i.e. for REQUEST) -/
+def replyTypeOf (msgType : UInt8) : UInt8 := if msgType == DHCP_DISCOVER then DHCP_OFFER else DHCP_ACK
+
 end Bng.XdpDhcp
